@@ -264,6 +264,7 @@ def decOp (fs : List String) : Option World.Op :=
   | ["w.cache", "clear"] => some .cacheClear
   | ["w.warm", t] => some (.warm (decText t))
   | ["w.todict", t] => some (.toDict (decOpt t))
+  | ["w.todict_obj", t] => some (.toDictObj (decText t))
   | ["w.desc", id, t, layout, cfg, pq, src, wait] =>
     some (.newDesc id.toNat! (decText t) (decOpt layout) (decCfgArg cfg) (optB pq) (decOpt src) (optB wait))
   | ["w.desc.parse", id, commit, kw] => some (.descParse id.toNat! (descKw (decKwargs kw)) (decBool commit))
